@@ -1313,3 +1313,379 @@ class Sym:
                     for d, l in succ:
                         stack.append((d, st_.copy(), False))
         return out
+
+
+# ---------------------------------------------------------------------------
+# C08.j: exchanges versus hand-overs to the transport (which may re-enter the error dispatch)
+
+
+def bind_call(call, names):
+    """{parameter name: argument expression} of a call against the callee's parameter names (self excluded);
+    None when the call uses * / ** forms the rules do not bind"""
+    if any(isinstance(a, ast.Starred) for a in call.args) or any(k.arg is None for k in call.keywords) or len(call.args) > len(names):
+        return None
+    out = dict(zip(names, call.args))
+    for k in call.keywords:
+        out[k.arg] = k.value
+    return out
+
+
+def deep_origins(flow, e, at, fields=(), depth=4):
+    """Flow.origins, looking additionally *through* collections built in the function: an element of iterating a
+    comprehension / generator expression / display (directly, or held in a local, or wrapped in list()/tuple()/...)
+    denotes what the collection's element expression denotes.  Elements of iterating one of `fields` are left alone
+    (they are entry reads)."""
+    out = []
+    for v, pth in flow.origins(e, at):
+        if isinstance(v, Elem) and depth > 0 and not any(flow.entry_read(v, F) is not None for F in fields):
+            ids = flow.rn(v.scope) if isinstance(v.scope, ast.AST) else []
+            at_it = ids[0] if ids else at
+            inner, _copied = unwrap_iter(v.it)
+            srcs = []
+            for c_, cp in flow.origins(inner, at_it):
+                c_, _ = unwrap_iter(c_) if isinstance(c_, ast.AST) else (c_, False)
+                if cp == () and isinstance(c_, (ast.ListComp, ast.SetComp, ast.GeneratorExp)):
+                    srcs.append([c_.elt])
+                elif cp == () and isinstance(c_, (ast.List, ast.Tuple, ast.Set)) and not any(isinstance(x, ast.Starred) for x in c_.elts):
+                    srcs.append(list(c_.elts))
+                else:
+                    srcs = None
+                    break
+            if srcs:
+                for elts in srcs:
+                    for x in elts:
+                        site = flow.site(x, at_it)
+                        for v2, p2 in deep_origins(flow, x, site, fields, depth - 1):
+                            out.append(flow._index(v2, p2 + pth) if isinstance(v2, ast.AST) else (v2, p2 + pth))
+                continue
+        out.append((v, pth))
+    return out
+
+
+def cancelled_tables(prog, fi):
+    """({field chain: [cancel calls]}, number of reachable `.cancel()` calls): the tables `self.F` of whose entries
+    function fi cancels (a component of) the value -- `F.pop(k)[1].cancel()`, `_, t = F.pop(k); t.cancel()`,
+    `for _, t in F.values(): t.cancel()`, `F[k][1].cancel()` ... (Flow.origins + Flow.entry_read)"""
+    flow = Flow(prog, fi)
+    a = fi.node.args.args
+    selfn = a[0].arg if a else "self"
+    fields = sorted({chain(n) for n in walk_no_nested(fi.node) if isinstance(n, ast.Attribute) and isinstance(n.value, ast.Name) and n.value.id == selfn and chain(n)})
+    out = {}
+    ncancel = 0
+    for c in calls_in(fi.node):
+        if not (isinstance(c.func, ast.Attribute) and c.func.attr == "cancel" and not c.args and not c.keywords):
+            continue
+        ids = flow.rn(c)
+        if not ids:
+            continue
+        ncancel += 1
+        for v, pth in deep_origins(flow, c.func.value, ids[0], fields):
+            if not isinstance(v, (ast.AST, Elem)):
+                continue
+            for F in fields:
+                er = flow.entry_read(v, F, flow.site(v, ids[0]))
+                comp = entry_component(er[0], pth) if er is not None else None
+                if comp is not None and comp[0] == "value":
+                    out.setdefault(F, []).append(c)
+    return out, ncancel
+
+
+class XEvent:
+    """kind 'tx' (the message is handed to the transport) or 'reg' (an entry for the message goes into an exchange
+    table); msg: the expression denoting the message in the function (None: not identified); rearm: a 'reg' that
+    puts back an entry the same activation took out before on every path"""
+
+    def __init__(self, kind, nid, msg, node, rearm=False, direct=True):
+        self.kind, self.nid, self.msg, self.node, self.rearm, self.direct = kind, nid, msg, node, rearm, direct
+
+
+class Exchanges:
+    """Where do the methods of one class hand a message to the transport object held in `self.<transport>`, and
+    where do they enter it into one of the exchange `tables` -- directly or through other methods of the class
+    (summaries over the message *parameter*, so no method name matters)."""
+
+    def __init__(self, prog, cls, tables, transport):
+        self.prog, self.cls, self.tables, self.transport = prog, cls, list(tables), transport
+        self._ev = {}
+        self._busy = set()
+        self._flows = {}
+
+    def funcs(self):
+        pre = self.cls.qn + "."
+        return [f for f in self.prog.funcs.values() if f.qn.startswith(pre) and isinstance(f.node, (ast.FunctionDef, ast.AsyncFunctionDef))]
+
+    def flow(self, fi):
+        if id(fi) not in self._flows:
+            self._flows[id(fi)] = Flow(self.prog, fi)
+        return self._flows[id(fi)]
+
+    def _callee(self, call):
+        f = call.func
+        if isinstance(f, ast.Attribute) and isinstance(f.value, ast.Name) and f.value.id == "self":
+            try:
+                return self.prog.lookup_method(self.cls.qn, f.attr)
+            except Exception:
+                return None
+        return None
+
+    def _key_message(self, flow, key, at):
+        """the expression M when the key of an exchange is built from attributes of one object M (`(M.remote, M.mid)`)"""
+        if key is None:
+            return None
+        o = flow.origins(key, at)
+        if len(o) != 1 or o[0][1] != () or not isinstance(o[0][0], ast.AST):
+            return None
+        bases = []
+        for n in ast.walk(o[0][0]):
+            if isinstance(n, ast.Attribute) and isinstance(n.value, ast.Name):
+                bases.append(n.value)
+        ids = {b.id for b in bases}
+        if len(ids) != 1 or any(isinstance(n, ast.Name) and n.id not in ids for n in ast.walk(o[0][0])):
+            return None
+        return bases[0]
+
+    def _same_key(self, flow, k1, at1, k2, at2):
+        if k1 is None or k2 is None:
+            return False
+        o1, o2 = flow.origins(k1, at1), flow.origins(k2, at2)
+        if len(o1) != 1 or len(o2) != 1 or o1[0][1] != o2[0][1]:
+            return False
+        v1, v2 = o1[0][0], o2[0][0]
+        if v1 is v2:
+            return True
+        if not (isinstance(v1, ast.AST) and isinstance(v2, ast.AST) and same(v1, v2)):
+            return False
+        # structurally equal expressions evaluated at two places: equal values when nothing they read is re-bound
+        return not any(isinstance(n, ast.Name) and writes_to_name(flow.fnode, n.id) for n in ast.walk(v1)) and not any(isinstance(n, ast.Call) for n in ast.walk(v1))
+
+    def events(self, fi):
+        if id(fi) in self._ev:
+            return self._ev[id(fi)]
+        if id(fi) in self._busy:
+            return []  # recursion: the cycle adds nothing the first visit does not see
+        self._busy.add(id(fi))
+        flow = self.flow(fi)
+        cfg = flow.cfg
+        out = []
+        for F in self.tables:
+            ops = stores_to(fi.node, F, nested=False)
+            removals = []
+            for k, n in ops:
+                key = None
+                if k == "pop" and isinstance(n, ast.Call) and n.args:
+                    key = n.args[0]
+                elif k in ("delitem", "del") and isinstance(n, ast.Delete):
+                    for t in n.targets:
+                        if isinstance(t, ast.Subscript):
+                            key = t.slice
+                if key is not None:
+                    removals.extend((i, key) for i in flow.rn(n))
+            for k, n in ops:
+                key = None
+                if k == "setitem" and isinstance(n, (ast.Assign, ast.AnnAssign, ast.AugAssign)):
+                    tg = n.targets if isinstance(n, ast.Assign) else [n.target]
+                    for t in tg:
+                        for tt in (t.elts if isinstance(t, (ast.Tuple, ast.List)) else [t]):
+                            if isinstance(tt, ast.Subscript):
+                                key = tt.slice
+                elif k in ("setdefault", "__setitem__") and isinstance(n, ast.Call) and n.args:
+                    key = n.args[0]
+                elif k == "update":
+                    key = None
+                else:
+                    continue
+                for nid in flow.rn(n):
+                    took = {i for i, rk in removals if self._same_key(flow, key, nid, rk, i)}
+                    rearm = bool(took) and cfg.must_pass(cfg.entry, took, to=nid, skip_labels=())
+                    out.append(XEvent("reg", nid, self._key_message(flow, key, nid), n, rearm=rearm))
+        for c in calls_in(fi.node):
+            ids = flow.rn(c)
+            if not ids or not isinstance(c.func, ast.Attribute):
+                continue
+            if flow.denotes_field(c.func.value, "self." + self.transport, ids[0]):
+                out.append(XEvent("tx", ids[0], c.args[0] if c.args and not isinstance(c.args[0], ast.Starred) else (c.keywords[0].value if c.keywords else None), c))
+                continue
+            m = self._callee(c)
+            if m is None or m is fi:
+                continue
+            b = bind_call(c, params(m))
+            sub = self.events(m)
+            mp = set(params(m))
+            for ev in sub:
+                if not (isinstance(ev.msg, ast.Name) and ev.msg.id in mp and not writes_to_name(m.node, ev.msg.id)):
+                    continue  # what the callee does with a message of its own is ordered inside the callee
+                arg = b.get(ev.msg.id) if b is not None else None
+                out.append(XEvent(ev.kind, ids[0], arg, c, rearm=ev.rearm, direct=False))
+        self._busy.discard(id(fi))
+        self._ev[id(fi)] = out
+        return out
+
+    def may_be_same(self, flow, t, r):
+        """can the two events concern the same message? (unknown: yes)"""
+        a, b = t.msg, r.msg
+        if a is None or b is None:
+            return True
+        if isinstance(a, ast.Name) and isinstance(b, ast.Name):
+            if a.id == b.id:
+                return True
+            oa, ob = flow.origins(a, t.nid), flow.origins(b, r.nid)
+            return any(va is vb and pa == pb for va, pa in oa for vb, pb in ob)
+        return same(a, b)
+
+    def late_registrations(self, fi, include_rearm=False):
+        """[(reg event, tx event)]: an entry for a message is made on a path on which the message was handed to the
+        transport before (a path that re-binds the local denoting the message concerns another message)"""
+        flow = self.flow(fi)
+        cfg = flow.cfg
+        evs = self.events(fi)
+        out = []
+        for r in evs:
+            if r.kind != "reg" or (r.rearm and not include_rearm):
+                continue
+            for t in evs:
+                if t.kind != "tx" or t.nid == r.nid or not self.may_be_same(flow, t, r):
+                    continue
+                avoid = set()
+                if isinstance(t.msg, ast.Name) and isinstance(r.msg, ast.Name) and t.msg.id == r.msg.id:
+                    avoid = {nid for nid, _ in flow.write_nodes(t.msg.id)} - {t.nid, r.nid}
+                if cfg.exists_path(t.nid, r.nid, avoid=avoid):
+                    out.append((r, t))
+                    break
+        return out
+
+
+# ---------------------------------------------------------------------------
+# C08.k: error relays (functions that pass an error report they receive on towards TokenManager.dispatch_error)
+
+
+class Relay:
+    def __init__(self, fi, err, calls):
+        self.fi, self.err, self.calls = fi, err, calls  # calls: forwarding call nodes
+
+
+def entry_param(flow, e, at):
+    """name of the parameter whose value *at entry* expression e denotes at node `at` (through locals), else None"""
+    o = flow.origins(e, at)
+    if len(o) != 1 or o[0][1] != () or not isinstance(o[0][0], ast.Name):
+        return None
+    nm = o[0][0].id
+    if nm not in flow.params:
+        return None
+    ws, live = flow.reaching(nm, at)
+    return nm if live and not ws else None
+
+
+def error_relays(prog, base, base_err):
+    """Fixpoint from the sink `base` (a FuncInfo whose parameter `base_err` is the error): a function is a relay
+    when it calls a method *named* like a known sink or relay (receivers such as `self._ctx` have no static type,
+    so the callee is resolved by name and signature) and passes one of its own parameters, unchanged, as that
+    callee's error argument.  -> {id(fi): Relay}"""
+    sinks = {base.name: [(params(base), base_err)]}
+    relays = {}
+    cands = [f for f in prog.funcs.values() if isinstance(f.node, (ast.FunctionDef, ast.AsyncFunctionDef)) and f is not base]
+    flows = {}
+    mcalls = {}
+    changed = True
+    while changed:
+        changed = False
+        for f in cands:
+            own = [p for p in params(f)]
+            if not own:
+                continue
+            found = {}
+            if id(f) not in mcalls:
+                mcalls[id(f)] = [c for c in calls_in(f.node) if isinstance(c.func, ast.Attribute)]
+            for c in mcalls[id(f)]:
+                if c.func.attr not in sinks:
+                    continue
+                if id(f) not in flows:
+                    flows[id(f)] = Flow(prog, f)
+                flow = flows[id(f)]
+                ids = flow.rn(c)
+                if not ids:
+                    continue
+                for names, err in sinks[c.func.attr]:
+                    b = bind_call(c, names)
+                    if b is None or err not in b:
+                        continue
+                    p = entry_param(flow, b[err], ids[0])
+                    if p is not None and p in own:
+                        found.setdefault(p, [])
+                        if not any(x is c for x in found[p]):
+                            found[p].append(c)
+            if not found:
+                continue
+            # one error parameter per relay (a function forwarding two different parameters as errors is outside
+            # the vocabulary: keep the one with most forwarding calls)
+            p = sorted(found, key=lambda k_: (-len(found[k_]), k_))[0]
+            old = relays.get(id(f))
+            if old is None or old.err != p or len(old.calls) != len(found[p]):
+                relays[id(f)] = Relay(f, p, found[p])
+                sig = (params(f), p)
+                if sig not in sinks.setdefault(f.name, []):
+                    sinks[f.name].append(sig)
+                changed = True
+    return relays
+
+
+def param_dependent_atoms(fi, pm):
+    """{decision key of the path model: does the tested condition read a parameter (other than self), directly or
+    through locals computed from one}"""
+    own = set(params(fi))
+    memo = {}
+
+    def dep_name(nm, seen):
+        if nm in memo:
+            return memo[nm]
+        if nm in seen:
+            return False
+        seen = seen | {nm}
+        r = False
+        ws = writes_to_name(fi.node, nm)
+        if nm in own:
+            r = True
+        for w in ws:
+            v = None
+            if isinstance(w, (ast.Assign, ast.AugAssign, ast.AnnAssign)):
+                v = w.value
+            elif isinstance(w, (ast.For, ast.AsyncFor)):
+                v = w.iter
+            elif isinstance(w, ast.NamedExpr):
+                v = w.value
+            if v is not None and dep_expr(v, seen):
+                r = True
+        memo[nm] = r
+        return r
+
+    def dep_expr(e, seen=frozenset()):
+        return any(isinstance(n, ast.Name) and dep_name(n.id, seen) for n in ast.walk(e))
+
+    out = {}
+    for n in pm.cfg.nodes:
+        if n.kind == "test" and n.ast is not None:
+            k, _pol = pm.key_of(n)
+            out[k] = out.get(k, False) or dep_expr(n.ast)
+    return out
+
+
+def value_dependent_forwarding(fi, relay):
+    """None when, on the normal paths of the relay, whether the report is passed on is a function of the layer's own
+    state alone; else (skipping path, forwarding path, path model): two paths that agree on every condition over the
+    object's state they both decide, one of which forwards while the other returns without forwarding -- so for
+    some state the outcome depends on the error (or on the remote) that was reported."""
+    from ..paths import PathModel
+    pm = PathModel(fi)
+    cfg = pm.cfg
+    fw = {i for c in relay.calls for i in cfg.locate(c) if cfg.is_reachable(i)}
+    dep = param_dependent_atoms(fi, pm)
+    skips, fwds = [], []
+    for p in pm.paths():
+        if p.end not in ("return", "fall"):
+            continue
+        (fwds if fw & set(p.nodes) else skips).append(p)
+    for s in skips:
+        sd = {k: v for k, v in s.decisions.items() if not dep.get(k, True)}
+        for w in fwds:
+            if not any(k in sd and sd[k] != v for k, v in w.decisions.items() if not dep.get(k, True)):
+                return s, w, pm
+    return None
